@@ -84,10 +84,15 @@ Definition eff_limit (n : Z) : Z := if (n <=? 0)%Z then defaultMaxMetadataBytes 
 (* io.LimitReader: the prefix of the body that a reader behind the limit can ever obtain *)
 Definition seen (limit : Z) (body : str) : str := firstn (Z.to_nat (eff_limit limit)) body.
 
-(* calculateDigestFromResponse (a manifest GET without Docker-Content-Digest, since 4dc7269): the
-   body is read through io.LimitReader(limit+1); what was read, and whether it is rejected as
-   exceeding MaxMetadataBytes *)
-Definition digest_probe (limit : Z) (body : str) : str * bool :=
+(* calculateDigestFromResponse (a manifest GET without Docker-Content-Digest): a body whose
+   Content-Length exceeds the limit is refused before anything is read, otherwise the body is read
+   through limitReader.  Result: what was read, and whether the response is rejected. *)
+Definition digest_probe (limit : Z) (content_length : Z) (body : str) : str * bool :=
+  if (eff_limit limit <? content_length)%Z then ([], true)
+  else (firstn (Z.to_nat (eff_limit limit)) body, false).
+
+(* the first version of that fix (4dc7269, amended by 4290d32): io.LimitReader(limit+1) *)
+Definition digest_probe_v1 (limit : Z) (body : str) : str * bool :=
   let got := firstn (Z.to_nat (eff_limit limit + 1)) body in
   (got, (eff_limit limit <? Z.of_nat (length got))%Z).
 
